@@ -1,4 +1,5 @@
 import PycModel.Cpp
+import PycModel.Proofs.CppGuards
 import PycModel.Generated.FakeHeaders
 /-!
 # C19 — every fake libc header preprocesses and parses via parse_file
@@ -36,5 +37,40 @@ theorem impl_single_headers :
       out == [D, T] || out == [D] || out == [T] || out == [XD] || out == [XT] ||
       out == [D, T, XD, XT] || out == [D, T, Z]) = true := by
   decide +kernel
+
+
+/-! ## all header lists, in any order -/
+
+/-- obligation: in the regenerated tree every file with content is guarded -/
+theorem impl_guarded_bodies : GuardedBodies fs := by
+  have h : (fs.all fun fd => !fd.hasBody || fd.guard.isSome) = true := by decide +kernel
+  intro fd hfd hb
+  have := List.all_eq_true.mp h fd hfd
+  simpa [hb] using this
+
+/-- obligation: the files with content are exactly the five guarded bodies -/
+theorem impl_bodies : (fs.filter (·.hasBody)).map (·.name) = [D, T, Z, XD, XT] := by decide +kernel
+
+/-- **Reduction, every header list.** Whatever headers of the tree a file includes - any subset,
+any order, any repetition - preprocessing emits a duplicate-free sequence of the five guarded
+bodies (defines, typedefs, the X11 pair, zlib's typedefs): the infinitely many header lists
+collapse to the finitely many arrangements of at most five bodies, which the check enumerates
+on the real `cpp` and parser. -/
+theorem any_header_list (hs : List String) :
+    (pp fs hs).Nodup ∧ ∀ f ∈ pp fs hs, f ∈ [D, T, XD, XT, Z] := by
+  obtain ⟨hn, hb⟩ := pp_nodup_bodies impl_guarded_bodies hs
+  refine ⟨hn, ?_⟩
+  intro f hf
+  obtain ⟨fd, hfd, hname, hbody⟩ := hb f hf
+  have : fd.name ∈ (fs.filter (·.hasBody)).map (·.name) :=
+    List.mem_map.mpr ⟨fd, List.mem_filter.mpr ⟨hfd, hbody⟩, rfl⟩
+  rw [impl_bodies, hname] at this
+  simp only [List.mem_cons, List.mem_nil_iff, or_false] at this ⊢
+  rcases this with h | h | h | h | h <;> simp [h]
+
+/-- in particular at most five bodies are ever emitted -/
+theorem any_header_list_length (hs : List String) : (pp fs hs).length ≤ 5 := by
+  obtain ⟨hn, hm⟩ := any_header_list hs
+  simpa using hn.length_le_of_subset hm
 
 end PycModel.C19
